@@ -133,3 +133,50 @@ class C14RationalN4(_ModeB):
 
 
 UNITS = [C14Symbolic(), C14RationalN2(), C14RationalN3(), C14RationalN4()]
+
+
+# ---- bounded check of the SOLVE assumption of the Mode B units --------------------------------------------------------------------
+class SolveSystemsBounded(Unit):
+    """Mode B replaces Quadratic.solve_systems by its contract (the exact solution of the system built by build_system); the real body
+    (eigen-decomposition, scaling) is floating-point code outside exact arithmetic.  Here it is run on seeded well-conditioned
+    interpolation sets: the returned vectors solve W x = rhs up to rounding x conditioning, and the caller's right-hand sides are
+    not modified (Models.determinants reuses them after the call)."""
+    name = "models.solve_systems_bounded"
+    props = ("C14", "C13", "C12")
+    fmodel = "ORDER"
+    functions = [("cobyqa.models", "Quadratic.solve_systems"), ("cobyqa.models", "build_system")]
+    replay = ("contracts.replays", "solve_systems_check")
+    bounded = "native run-time contract on 600 seeded interpolation sets (n 1..4, npt n+1..(n+1)(n+2)/2, radii over 8 decades, 1..3 right-hand sides)"
+
+    def run(self, c):
+        import os
+        import z3
+        import numpy as np
+        from pyvc.transform import ensure_repo_on_path
+        from .subsolvers_bounded import rng_for
+        from .replays import solve_systems_check
+        ensure_repo_on_path()
+        rng = rng_for(self.name)
+        N = 6000 if os.environ.get("VERIF_TIER") == "thorough" else 600
+        bad = None
+        with np.errstate(all="ignore"):
+            for k in range(N):
+                n = int(rng.integers(1, 5))
+                npt = int(rng.integers(n + 1, (n + 1) * (n + 2) // 2 + 1))
+                rad = 10.0 ** rng.uniform(-4, 4)
+                xpt = rng.standard_normal((n, npt)) * rad
+                xpt[:, 0] = 0.0
+                rhs = rng.standard_normal((npt + n + 1, int(rng.integers(1, 4))))
+                case = dict(xpt=xpt.tolist(), rhs=rhs.tolist())
+                try:
+                    r = solve_systems_check(**case)
+                except np.linalg.LinAlgError:
+                    continue
+                if r["reproduced"] and bad is None:
+                    bad = (k, case, r)
+        c.oblige(f"C14.solve_systems.solves_the_system_and_keeps_its_argument[{N} cases]", z3.BoolVal(bad is None), kind="bounded",
+                 props=["C14", "C13", "C12"], note=None if bad is None else f"case {bad[0]}: {bad[2].get('required')}: {bad[2].get('observed')}",
+                 replay_inputs=None if bad is None else bad[1])
+
+
+UNITS.append(SolveSystemsBounded())
